@@ -123,7 +123,9 @@ def threads_part(chk, rng, n):
 
 def run(chk):
     rng = random.Random(chk.seed)
-    chk.lean = core.lean_build(["BromeliaVerif.Properties.C18"])
+    import gen_tbcd
+    chk.tie_notes += gen_tbcd.generate()[1]       # tie (a): the two TBCD loops translated to Gen/TbcdGen.lean on every run
+    chk.lean = core.lean_build(["BromeliaVerif.Properties.C18", "BromeliaVerif.Properties.C18Gen"])
     maxlen = 5 if chk.tier == "quick" else 7
     chk.rule = ("every digit string of length 0..%d enumerated without repetition (exhaustive), plus seeded random digit"
                 " strings of length 6..20 (deduplicated), each through encode_to_tbcd, bytes.fromhex and decode_from_tbcd;"
